@@ -118,6 +118,18 @@ def run_case(case, ctx):
                 probs.append("save/load changed predictions")
         finally:
             os.unlink(path)
+        # models trained EARLIER in this process must still be textbook models after this training (nothing may be shared)
+        for (m_old, ref_old, q_old, saved_old) in ctx.setdefault("c16_old", []):
+            mon.events["earlier_model_rechecked"] += 1
+            g_old = m_old.predict_log_proba(q_old)
+            for q, g in zip(q_old, g_old):
+                e = ref_old.predict_log_proba(q)
+                if not (abs(g[0] - e[0]) < TOL and abs(g[1] - e[1]) < TOL):
+                    probs.append("a model trained earlier in this process changed after a later training: query %r now %r, textbook %r" % (q, g, e))
+                    break
+            if [tuple(x) for x in g_old] != saved_old:
+                probs.append("predictions of an earlier model differ from what it predicted right after its own training")
+        ctx["c16_old"] = (ctx["c16_old"] + [(model, ref, queries, [tuple(x) for x in got])])[-3:]
         key = "corpus/%d" % case["i"]
         obs = {"docs": len(docs), "vocab": len(ref.vocab), "queries": len(queries), "example": {"q": queries[0], "logp": list(got[0])}}
     elif k == "parse":
